@@ -1,5 +1,4 @@
 SPECIFICATION TSpec
 CONSTRAINT Mark
-INVARIANT Inv
 POSTCONDITION Post
 CHECK_DEADLOCK FALSE
